@@ -25,6 +25,7 @@ func vh04Corpus() [][]vhsrvReq {
 			w(1, 3, "f2"), {T: "Tlopen", N: []uint64{3, 1}}, {T: "Tread", N: []uint64{3, 0, 10}}, {T: "Twrite", N: []uint64{3, 0, 3}},
 			{T: "Tlopen", N: []uint64{3, 2}}, {T: "Tlcreate", N: []uint64{1, 2, 0o644, 0}, S: vhsrvH("f3")}, {T: "Tread", N: []uint64{1, 0, 4}},
 			{T: "Txattrwalk", N: []uint64{2, 4}, S: vhsrvH("user.a")}, {T: "Tread", N: []uint64{4, 0, 4}}, {T: "Twrite", N: []uint64{4, 0, 1}},
+			{T: "Tread", N: []uint64{4, 1<<64 - 1, 4}}, {T: "Tread", N: []uint64{4, 1<<64 - 2, 2}}, {T: "Tread", N: []uint64{4, 1, 1<<32 - 1}}, {T: "Tread", N: []uint64{4, 0, 0}},
 			{T: "Txattrcreate", N: []uint64{3, 4, 0}, S: vhsrvH("user.b")}, {T: "Twrite", N: []uint64{3, 0, 4}}, {T: "Tread", N: []uint64{3, 0, 4}}, {T: "Tclunk", N: []uint64{3}},
 			{T: "Tunlinkat", N: []uint64{0, 0}, S: vhsrvH("d1")}, {T: "Tlopen", N: []uint64{1, 0}}, w(1, 5, "f1"), {T: "Tgetattr", N: []uint64{2, 1}},
 			{T: "Tclunk", N: []uint64{4}}, {T: "Tclunk", N: []uint64{2}}, {T: "Tclunk", N: []uint64{2}}, {T: "Tremove", N: []uint64{1}}, {T: "Tremove", N: []uint64{1}}},
